@@ -153,7 +153,14 @@ def answer (p : ProbeCtx) (q : String) : String :=
     | _, _, _ => "bad-query"
   | ["hash", a] =>
     match parseVal a, methodOf p .hash with
-    | some a, some body => s!"spec={logStr it (specHashLog it a)} eval={resStr it (runMethod p.cx body a none)}"
+    | some a, some body =>
+      -- `writes=`: what a recording hasher sees: `Hash for mem::Discriminant<T>` writes the discriminant value in the
+      -- enum's discriminant type (`isize` without an integer `repr`); `@pos@` stands for the writes of field `pos`
+      let writes := ",".intercalate ((specHashLog it a).filterMap fun e => match e with
+        | .hashDisc k => some s!"{(p.cx.ti.reprInt.map IntTy.tok).getD "isize"}:{p.cx.ti.discr k}"
+        | .hashField x => some s!"@{x.1}@"
+        | _ => none)
+      s!"spec={logStr it (specHashLog it a)} eval={resStr it (runMethod p.cx body a none)} writes={writes}"
     | _, _ => "bad-query"
   | ["clone", a] =>
     match parseVal a, methodOf p .clone, findTrait p.inp .clone with
